@@ -221,6 +221,14 @@ def campaign_bridge(ck: Check, n: int, c16) -> None:
     for i in range(n):
         docs.append(c16.rand_collision_document(rng) if i % 7 == 6 else c16.rand_document(rng))
     docs = [d for d in docs if not has_float_outside_dec(d)]
+    n_tree = len(docs)
+    for i in range(max(4, n // 6)):  # CSV header + first row: a flat object of strings
+        row: dict = {}
+        while len(row) < rng.range(1, 5):
+            k = c16.rand_key(rng)
+            if "\n" not in k and "\r" not in k:
+                row[k] = rng.choice(c16.STRINGS + ["3", "4.5"]).replace("\n", " ")
+        docs.append(row)
     reqs = []
     for doc in docs:
         s = sem_sx(doc)
@@ -246,7 +254,7 @@ def campaign_bridge(ck: Check, n: int, c16) -> None:
         except Exception as e:  # noqa: BLE001
             model, fuel, wf = f"model reply not understood: {rep_schema[:120]} ({e})", 0, False
         texts = {}
-        for fmt in c16.FORMATS:
+        for fmt in (c16.FORMATS if i < n_tree else ["csv"]):
             ca.evaluations += 1
             ca.hit(f"format:{fmt}")
             try:
@@ -291,7 +299,7 @@ def campaign_bridge(ck: Check, n: int, c16) -> None:
         if len(ca.samples) < 2 and texts and 40 < len(json.dumps(doc)) < 160:
             ca.samples.append({"document": doc, "schema_text": next(iter(texts.values())), "model": rep_schema[3:][:400]})
         # ---- (2) the IR
-        text = texts.get("json")
+        text = texts.get("json") or texts.get("csv")
         if text is None or astral:
             cb.unmodelled += 1
             continue
@@ -390,6 +398,33 @@ def campaign_accepts(ck: Check, log: list) -> None:
             ck.disagree(camp, {"document": doc, "model": kind}, verdict, "accept" if real_accepts else "reject")
         elif len(camp.samples) < 2 and 30 < len(json.dumps(doc)) < 160:
             camp.samples.append({"document": doc, "model": kind, "verdict": verdict})
+    camp.wall_s = time.time() - t0
+
+
+BOUNDARY_ELEMS = [None, [None], [], 1, [None, 1], [[None]], {}, {"a": None}, {"a": [None]}, [[None], None]]
+
+
+def campaign_v1_boundary(ck: Check, max_len: int, c16) -> None:
+    """the family `{"k": [e1 … en]}` over elements around `List[None]`: inside `v1Safe` the pydantic-v1 class
+    must accept the sample (the claim of C16.sample_accepted_partial; a rejection is handed to the
+    property oracle); outside it the outcome is only counted (how sharp the hypothesis is)"""
+    import itertools
+
+    camp = ck.campaign("region of C16.sample_accepted_partial for pydantic-v1 output: exhaustive family of arrays around List[None] (v1Safe ⇒ the exec'd class accepts the sample)")
+    t0 = time.time()
+    docs = [{"k": list(c)} for n in range(1, max_len + 1) for c in itertools.product(BOUNDARY_ELEMS, repeat=n)]
+    replies = ck.driver.run([f"bridge.region {sem_sx(d)}" for d in docs])
+    for doc, rep in zip(docs, replies):
+        camp.evaluations += 1
+        covered = rep == "ok 1"
+        r = c16.evaluate(doc, "json", "pydantic.BaseModel")
+        rejected = r is not None and r[0] == "sample_rejected"
+        camp.distinct.add(json.dumps(doc))
+        camp.hit(("covered" if covered else "excluded") + ("_rejected" if rejected else "_accepted"))
+        if covered and rejected:
+            c16.oracle_case(ck, camp, doc, "json", "pydantic.BaseModel")
+        elif len(camp.samples) < 2 and not covered and len(doc["k"]) == 2:
+            camp.samples.append({"document": doc, "region": "excluded", "rejected_by_pydantic_v1": rejected})
     camp.wall_s = time.time() - t0
 
 
